@@ -222,6 +222,18 @@ impl Constraints {
     }
 }
 
+/// Verification hooks (feature `verif_hooks`): public wrappers over private helpers.
+#[cfg(feature = "verif_hooks")]
+impl Constraints {
+    pub fn verif_inside_bounds(angle1: f64, angle2: f64, tolerance: f64) -> bool {
+        Self::inside_bounds(angle1, angle2, tolerance)
+    }
+
+    pub fn verif_compute_centers(from: Joints, to: Joints) -> (Joints, Joints) {
+        Self::compute_centers(from, to)
+    }
+}
+
 #[cfg(test)]
 mod tests {
     use crate::kinematic_traits::Solutions;
